@@ -27,7 +27,7 @@ FUNCTIONS = ['plasTeX.TeX:TeX.parse', 'plasTeX.TeX:bufferediter', 'plasTeX:Macro
 RULE = ('one evaluation = one path: (i) one order type of the symbolic levels; (ii) one skeleton x one symbolic leaf x one class of its characters; '
         'non-trivial = >= 2 sectioning nodes / a leaf containing a quote or dash')
 BOUNDS = {
-    'quick': '(i) streams of 4 sectioning nodes with levels in [-2, 6] + text; (ii) 11 skeletons (2-11 leaves each; incl. headings inside brace groups / \\begingroup and after open declarations, groups and scripts inside mathematics), one leaf at a time made of a fixed '
+    'quick': '(i) streams of 4 sectioning nodes with levels in [-2, 6] + text; (ii) 14 skeletons (incl. a body without any paragraph break, array-like mathematics with an \\mbox in between), (2-11 leaves each; incl. headings inside brace groups / \\begingroup and after open declarations, groups and scripts inside mathematics), one leaf at a time made of a fixed '
              'quote and dash plus 2 symbolic characters over {a, \', `, -, ", e-acute} (so that the same substitution can be needed twice in one run), the other leaves concrete markers; '
              'every sectioning unit hangs under the nearest preceding unit of lower level',
     'thorough': '(i) 6 sectioning nodes; (ii) leaves of 3 symbolic characters and two symbolic leaves at a time',
@@ -122,6 +122,8 @@ SKELETONS = {
     'math-groups': ('article', ['\\section{T}', L(), ' $^{', L('mathgroup'), '}$ ', L(), ' ${', L('mathgroup'), '}$ ', L(), '\\begin{equation}_{', L('mathgroup'), '}\\end{equation}', L()]),
     'single-paragraph': ('article', [L(), ' \\emph{', L(), '} ', L(), ' {\\small ', L(), '}']),          # no paragraph break, no heading anywhere in the body
     'single-environment': ('article', ['\\begin{center}', L(), '\\end{center}']),
+    'math-arrays': ('article', ['\\section{T}', L(), '\\begin{eqnarray}', L('mathgroup'), '&&', L('mathgroup'), '\\end{eqnarray}', L(), ' $\\begin{array}{l}', L('mathgroup'), '\\\\ ',
+                                L('mathgroup'), '\\end{array}$ ', L(), ' $\\mbox{', L(), '}$ ', L()]),
     'plain-paragraphs': ('article', [L(), '\n\n', L(), ' \\textit{', L(), '}\n\n', L()]),
 }
 
